@@ -12,7 +12,8 @@
 (* kind "candset": the result must be exactly the sub-table (columns,      *)
 (*   order, index labels, extra column) selected by the recorded public    *)
 (*   filter_pair outcomes fp (1 = dropped); for the OverlapFilter fp must  *)
-(*   itself be exact: kept iff both strings non-empty and overlap op size. *)
+(*   itself be exact: kept iff both values have tokens and overlap op size *)
+(*   (with a padded q-gram tokenizer the empty string has one token).      *)
 (***************************************************************************)
 EXTENDS Semantics, Json, IOUtils
 
@@ -70,7 +71,7 @@ Judge(T) ==
         LET c == C[k]  a == LRow(c.l)  b == RRow(c.r) IN
         IF Missing(c) THEN T.fp[k] = (IF T.am = 1 THEN 0 ELSE 1)
         ELSE LET x == SeqToSet(a.v)  y == SeqToSet(b.v)
-                 keep == a.nonempty = 1 /\ b.nonempty = 1 /\ CmpInt(T.op, Cardinality(x \cap y) * T.t[2], T.t[1])
+                 keep == x # {} /\ y # {} /\ CmpInt(T.op, Cardinality(x \cap y) * T.t[2], T.t[1])
              IN  T.fp[k] = (IF keep THEN 0 ELSE 1)
   IN
   IF O.raised # ""
